@@ -889,7 +889,7 @@ pub fn random_jplan(reg: &[TypeEntry], seed: u64, run: u64) -> JPlan {
     let gen = if rng.chance(1, 5) { gen_coincident(&mut rng, e) } else { gen_leaves(&mut rng, &e.gen_kinds, style) };
     let mut p = JPlan::base(&e.name, gen);
     p.pretty = rng.chance(1, 4);
-    p.reader = [JReader::Reader, JReader::Buffered, JReader::Slice, JReader::Str, JReader::Value, JReader::Flatten, JReader::Untagged][rng.usize_below(7)];
+    p.reader = [JReader::Reader, JReader::Buffered, JReader::Slice, JReader::Str, JReader::Value, JReader::Flatten, JReader::Untagged, JReader::Containers][rng.usize_below(8)];
     // benign disk behaviour, drawn independently of the fault mode (swarm)
     if rng.chance(1, 3) {
         p.w_chunk = 1 + rng.below(7) as u16;
@@ -961,7 +961,7 @@ pub fn random_jplan(reg: &[TypeEntry], seed: u64, run: u64) -> JPlan {
         }
     }
     p.in_place = p.reader != JReader::Value && rng.chance(1, 6);
-    if p.reader == JReader::Flatten && (p.trunc_at.is_some() || p.flip.is_some() || p.r_err_at.is_some()) {
+    if (p.reader == JReader::Flatten || p.reader == JReader::Containers) && (p.trunc_at.is_some() || p.flip.is_some() || p.r_err_at.is_some()) {
         // the splice would move the byte offsets; damaged bytes go through the plain slice reader
         p.reader = JReader::Slice;
     }
@@ -974,7 +974,7 @@ pub fn sweep_jplans(reg: &[TypeEntry]) -> Vec<JPlan> {
         let gen = simple_gen(&e.gen_kinds);
         let base = JPlan::base(&e.name, gen.clone());
         // fault-free, every reader, compact and pretty, with and without benign disk behaviour
-        for reader in [JReader::Reader, JReader::Slice, JReader::Str, JReader::Buffered, JReader::Value, JReader::Flatten, JReader::Untagged] {
+        for reader in [JReader::Reader, JReader::Slice, JReader::Str, JReader::Buffered, JReader::Value, JReader::Flatten, JReader::Untagged, JReader::Containers] {
             for pretty in [false, true] {
                 let mut q = base.clone();
                 q.reader = reader;
@@ -1020,7 +1020,7 @@ pub fn sweep_jplans(reg: &[TypeEntry]) -> Vec<JPlan> {
         if n == 0 || n > 4 {
             continue;
         }
-        for (ri, reader) in [JReader::Reader, JReader::Slice, JReader::Str, JReader::Value, JReader::Flatten, JReader::Untagged].iter().enumerate() {
+        for (ri, reader) in [JReader::Reader, JReader::Slice, JReader::Str, JReader::Value, JReader::Flatten, JReader::Untagged, JReader::Containers].iter().enumerate() {
             for arr in arrangements(n) {
                 let dropped: Vec<u8> = (0..n as u8).filter(|i| !arr.contains(i)).collect();
                 let mut perm = arr.clone();
